@@ -321,12 +321,14 @@ func (l *PartitionLog) Flush(ctx context.Context) error {
 	if l.onFlush != nil {
 		target := artifact
 		if target == nil {
+			// Nothing was flushed by this call: report the end of the last
+			// committed segment. nextOffset-1 would also cover batches that a
+			// concurrent AppendBatch has buffered but nobody has uploaded yet.
 			l.mu.Lock()
-			current := l.nextOffset - 1
-			l.mu.Unlock()
-			if current >= 0 {
-				target = &SegmentArtifact{LastOffset: current}
+			if n := len(l.segments); n > 0 {
+				target = &SegmentArtifact{LastOffset: l.segments[n-1].lastOffset}
 			}
+			l.mu.Unlock()
 		}
 		if target != nil {
 			l.onFlush(ctx, target)
